@@ -51,6 +51,12 @@ def gen_cases(tier, seed):
             if k > 0:
                 cases.append(common.mk(gen.content_for_bits(mode, k), tag='near-capacity', version=v, error=lv, boost_error=False))
     cases += common.eci_boundary_cases(rng, tier)
+    # an empty part in an explicitly requested mode between other parts (refused by the library; were it accepted, the
+    # empty numeric segment of a Micro symbol - indicator 0...0, count 0 - would be the terminator for every reader)
+    for empty in (('', 1), ('', 2), ''):
+        for parts in ([('12', 1), empty, ('ABC', 2)], [empty, ('ABC', 2)], ['12', empty, 'abc'], [('7', 1), empty, ('8', 1), 'A']):
+            for kw in ({}, {'micro': True}, {'micro': False}, {'version': 'M2'}, {'version': 'M4'}):
+                cases.append(common.mk(list(parts), tag='empty-part-in-mode', **kw))
     # multi segment / eci / random
     cases += common.random_cases(rng, 800 if tier == 'quick' else 60000, heavy=True)
     for _ in range(100 if tier == 'quick' else 1500):
